@@ -33,6 +33,8 @@ def gen_cases(rng, quick):
     tols = [1e-8, 1e-10, 1e-12, 1e-15]
     def add(t, pts, tr, k, zeta, c, rng_=(-1, -1)):
         cases.append({"type": t, "points": pts, "tr": tr, "k": k, "zeta": zeta, "c": c, "range": rng_, "tols": tols})
+    # corpus: the recorded example of the known finding premature-acceptance runs first, every time
+    add(0, 511, ("rminmax", 151.38, 0.0), 8, 151.38, 0.0)
     reps = 1 if quick else 6
     for rep in range(reps):
         for t, szs in ((0, one), (1, two)):
